@@ -434,6 +434,9 @@ ASMJIT_FAVOR_SIZE Error FormatterInternal::format_register(
     if (reg_type == RegType::kVec64) {
       element_count /= 2u;
     }
+    else if (reg_type == RegType::kVec32) {
+      element_count /= 4u;
+    }
 
     ASMJIT_PROPAGATE(sb.append('.'));
     if (element_count) {
@@ -565,7 +568,7 @@ ASMJIT_FAVOR_SIZE Error FormatterInternal::format_operand(
       }
     }
 
-    if (m.has_shift()) {
+    if (m.has_shift() || (m.has_index() && !m.is_pre_or_post() && m.shift_op() != ShiftOp::kLSL)) {
       ASMJIT_PROPAGATE(sb.append(' '));
       if (!m.is_pre_or_post()) {
         ASMJIT_PROPAGATE(format_shift_op(sb, m.shift_op()));
